@@ -30,6 +30,20 @@ CLAIMED = {
                 "`unsafe` from_raw_fd blocks are opaque; `#[cfg(windows)]` code is dropped; seeded changes to the unclaimed clauses of C16 will not be detected by this check.",
         "ref": "5-C16",
     },
+    "C19": {
+        "text": "Proof, for the STEP-ORDER / CLIENT-ID SLICE of the property only: ClientIds::check_client_id returns true only if the step table (after expiring old entries) has the "
+                "client id at exactly the step asked for, then sets that client's step to the given next step, never changes another client's step (entries only disappear by expiry) and "
+                "changes nothing when it returns false; new_client_id registers step Test01 for exactly the id it returns; every step method Test01..Test11 and End first checks the "
+                "client id against its own step name under the table lock and, if the table as found does not have the client at that step (unknown id, step out of order), sends "
+                "ClientIdError as its only reply and runs nothing else; whenever anything else happens the client's step has become the next step name of the canonical sequence. "
+                "NOT claimed: the check_call_*! comparisons of call mode and parameter values with the canonical ones (macro-expanded over generated types and floats), Start's own "
+                "check, the generated dispatch, and that concurrent clients make progress (the RwLock is std's; interference between acquisitions is modelled, exclusivity assumed).",
+        "note": NOTE_COMMON + "T12: in each step method only the first statement (the client-id gate) is the verified text; the remaining statements are replaced by an opaque continuation that may send "
+                "anything through `call` (the extractor refuses if the dropped text mentions `self`); `&self` is specialised to `&mut self` (T8) so that the lock stand-in can record what an "
+                "acquisition found; `&mut dyn Call_TestNN` is specialised to its supertrait (T8c); VecDeque, StringHashMap, Instant, DefaultHasher and the generated VarlinkCallError trait are "
+                "stand-ins with assumed contracts; seeded changes to the unclaimed clauses of C19 (value and call-mode checks) will not be detected by this check.",
+        "ref": "5-C19",
+    },
     "C20": {
         "text": "Proof, for the SPLIT / ONE-PRINT-PER-REPLY / EXIT-STATUS SLICE of the property only: in varlink_call, without --activate/--bridge the argument is cut at its LAST '/', "
                 "the connection is made to the text before it and the method called is the text after it; an argument without '/' is called as a whole at the address the resolver "
@@ -122,7 +136,6 @@ NOT_APPLICABLE = {
     "C12": "totality of the macro-generated recursive-descent parser over arbitrary Unicode and nesting; no function-level contract within the verifier's reach (DESIGN.md section 7)",
     "C13": "quantifies over thread schedules and timing of 2..64 OS connections; the installed Verus has no thread model and Kani has no threads (DESIGN.md section 7)",
     "C18": "relation between two process executions (stdio of `varlink bridge`, epoll close-watching, child processes); no contract can express process exit status",
-    "C19": "the certification step slice (13 step methods with macro-expanded checks over generated types) was not built; nothing is claimed",
 }
 
 
